@@ -8,6 +8,7 @@ import (
 	"os"
 	"path/filepath"
 	"sort"
+	"strings"
 	"sync"
 	"testing"
 
@@ -147,6 +148,7 @@ func Gen(ops map[string]Op) func(*rapid.T) Case {
 		)
 		if op.Pair != nil && rapid.IntRange(0, 2).Draw(t, "structured") != 0 {
 			s1, s2, pair = op.Pair(t)
+			pair = "structured:" + pair
 			if len(s1) != op.SecretLen || len(s2) != op.SecretLen {
 				panic("zzcth: Pair returned a secret of the wrong length for " + name)
 			}
@@ -156,7 +158,8 @@ func Gen(ops map[string]Op) func(*rapid.T) Case {
 		if rapid.Bool().Draw(t, "swap") {
 			s1, s2 = s2, s1
 		}
-		if op.Fix != nil {
+		if op.Fix != nil && !strings.HasPrefix(pair, "structured:") {
+			// structured pairs are already in the domain (Fix would flatten their edge values)
 			op.Fix(s1)
 			op.Fix(s2)
 		}
